@@ -173,14 +173,14 @@ fn lengths(rng: &mut Rng, thorough: bool) -> Vec<usize> {
     let bases: &[usize] = if thorough { &[72, 80, 96, 128, 160, 200, 256, 296] } else { &[72, 128, 296] };
     for base in bases { for d in 0..3 { ls.push(base - 1 + d); } }
     ls.push(300);
-    let extra = if thorough { 400 } else { 6 };
+    let extra = if thorough { 60 } else { 6 };
     for _ in 0..extra { ls.push(71 + rng.below(230) as usize); }
     ls
 }
 
 fn gen_cases(rng: &mut Rng, thorough: bool) -> Vec<(Case, &'static str)> {
     let mut cs: Vec<(Case, &'static str)> = vec![];
-    let reps = if thorough { 12 } else { 1 };
+    let reps = if thorough { 5 } else { 1 };
     let ls = lengths(rng, thorough);
     // ---- integer-valued, equal lengths
     for &n in &ls {
@@ -208,7 +208,7 @@ fn gen_cases(rng: &mut Rng, thorough: bool) -> Vec<(Case, &'static str)> {
         }
     }
     // ---- integer-valued, unequal lengths (outside the property; documents the precondition)
-    let n_uneq = if thorough { 600 } else { 60 };
+    let n_uneq = if thorough { 300 } else { 60 };
     for i in 0..n_uneq {
         let la = rng.below(if i % 3 == 0 { 100 } else { 40 }) as usize;
         let lb = match rng.below(3) {
@@ -219,7 +219,7 @@ fn gen_cases(rng: &mut Rng, thorough: bool) -> Vec<(Case, &'static str)> {
         cs.push((Case::KInt { a: rand_ints(rng, la, 0), b: rand_ints(rng, lb, 0) }, "int_unequal_len"));
     }
     // ---- arbitrary floats, equal lengths
-    let freps = if thorough { 10 } else { 2 };
+    let freps = if thorough { 5 } else { 2 };
     for &n in &ls {
         for r in 0..freps {
             if !thorough && r == 1 && n % 2 == 1 { continue; }
@@ -246,7 +246,7 @@ fn gen_cases(rng: &mut Rng, thorough: bool) -> Vec<(Case, &'static str)> {
         }
     }
     // ---- special values: subnormals, overflow to infinity, infinities, NaN (model only: bit-exact)
-    let n_wild = if thorough { 800 } else { 80 };
+    let n_wild = if thorough { 400 } else { 80 };
     let specials: [u32; 12] = [0, 0x8000_0000, 1, 0x8000_0001, 0x007F_FFFF, 0x0080_0000, 0x7F7F_FFFF, 0xFF7F_FFFF,
                                0x7F80_0000, 0xFF80_0000, 0x7FC0_0000, 0x3F80_0000];
     for i in 0..n_wild {
@@ -419,7 +419,7 @@ fn gen(a: &Args) {
             if let Some(c) = Case::parse(l) { emit(&mut w, &mut weight, &c, "sql_fixed_small"); }
         }
         for (c, kind) in gen_cases(&mut rng, a.thorough()) { emit(&mut w, &mut weight, &c, kind); }
-        let n_sql = if a.thorough() { 4000 } else { 300 };
+        let n_sql = if a.thorough() { 2500 } else { 300 };
         for _ in 0..n_sql { let (c, kind) = gen_sql(&mut rng, true); emit(&mut w, &mut weight, &c, kind); }
     }
     let _ = std::fs::remove_dir_all(scratch_root());
